@@ -166,6 +166,149 @@ func checkC27(c *Ctx) (string, []string) {
 		}
 	}
 
+	c.Rule("C27.stored-immutable", "memory provider: a byte slice held in the store's map is either never written in place (every update installs a new slice) or never handed out (returned, or kept in an iterator/snapshot) without being copied; a stored slice that is both shared with a reader and overwritten in place makes a returned value change under a later write", 2)
+	{
+		var inPlace, shared []string
+		var posIn, posSh token.Pos
+		nfun := 0
+		for _, f0 := range c.SrcFuncs(provRoot + "memory") {
+			for _, f := range withClosures(f0) {
+				nfun++
+				stored := map[ssa.Value]bool{}
+				isData := func(v ssa.Value) bool {
+					u, ok := v.(*ssa.UnOp)
+					if !ok || u.Op != token.MUL {
+						return false
+					}
+					fa, ok := u.X.(*ssa.FieldAddr)
+					if !ok {
+						return false
+					}
+					st, ok := derefType(fa.X.Type()).Underlying().(*types.Struct)
+					if !ok {
+						return false
+					}
+					_, isMap := st.Field(fa.Field).Type().Underlying().(*types.Map)
+					return isMap && strings.HasSuffix(typeStr(derefType(fa.X.Type())), "memoryDB")
+				}
+				// fixed point: values that alias a slice held in the map
+				for changed := true; changed; {
+					changed = false
+					mark := func(v ssa.Value) {
+						if !stored[v] {
+							stored[v] = true
+							changed = true
+						}
+					}
+					allInstrs(f, func(in ssa.Instruction) {
+						switch x := in.(type) {
+						case *ssa.Lookup:
+							if isData(x.X) {
+								mark(x)
+							}
+						case *ssa.Extract:
+							if stored[x.Tuple] && x.Index == 0 {
+								mark(x)
+							}
+							if nx, ok := x.Tuple.(*ssa.Next); ok && x.Index == 2 {
+								if rg, ok := nx.Iter.(*ssa.Range); ok && isData(rg.X) {
+									mark(x)
+								}
+							}
+						case *ssa.Slice:
+							if stored[x.X] {
+								mark(x)
+							}
+						case *ssa.ChangeType:
+							if stored[x.X] {
+								mark(x)
+							}
+						case *ssa.Phi:
+							for _, e := range x.Edges {
+								if stored[e] {
+									mark(x)
+								}
+							}
+						case *ssa.UnOp:
+							// reload of a local that holds a stored slice
+							if a, ok := x.X.(*ssa.Alloc); ok && x.Op == token.MUL {
+								for _, r := range *a.Referrers() {
+									if st, ok := r.(*ssa.Store); ok && st.Addr == ssa.Value(a) && stored[st.Val] {
+										mark(x)
+									}
+								}
+							}
+						}
+					})
+				}
+				allInstrs(f, func(in ssa.Instruction) {
+					switch x := in.(type) {
+					case *ssa.Store:
+						if ia, ok := x.Addr.(*ssa.IndexAddr); ok && stored[ia.X] {
+							inPlace = append(inPlace, funcKey(f)+": element store into a stored slice")
+							posIn = x.Pos()
+						}
+						if stored[x.Val] {
+							if _, isLocal := x.Addr.(*ssa.Alloc); !isLocal {
+								shared = append(shared, funcKey(f)+": stored slice kept in "+abbr(exprStr(x.Addr, shapeOpts)))
+								posSh = x.Pos()
+							}
+						}
+					case *ssa.Return:
+						for _, r := range retResults(x) {
+							if stored[r] {
+								shared = append(shared, funcKey(f)+": stored slice returned")
+								posSh = x.Pos()
+							}
+						}
+					case *ssa.MapUpdate:
+						if stored[x.Value] && !isData(x.Map) {
+							shared = append(shared, funcKey(f)+": stored slice kept in a map")
+							posSh = x.Pos()
+						}
+					case ssa.CallInstruction:
+						cc := x.Common()
+						if b, ok := cc.Value.(*ssa.Builtin); ok {
+							switch b.Name() {
+							case "copy", "clear":
+								if stored[cc.Args[0]] {
+									inPlace = append(inPlace, funcKey(f)+": "+b.Name()+"() into a stored slice")
+									posIn = x.Pos()
+								}
+							case "append":
+								if stored[cc.Args[0]] {
+									inPlace = append(inPlace, funcKey(f)+": append onto a stored slice (reuses its array)")
+									posIn = x.Pos()
+								}
+								if len(cc.Args) > 1 && stored[cc.Args[1]] {
+									// append(dst, stored...) copies the bytes
+								}
+							}
+						}
+					}
+				})
+			}
+		}
+		sort.Strings(inPlace)
+		sort.Strings(shared)
+		key := provRoot + "memory · stored slices"
+		switch {
+		case len(inPlace) > 0 && len(shared) > 0:
+			p := posIn
+			if p == 0 {
+				p = posSh
+			}
+			c.Bad("C27.stored-immutable", key, p, "stored slices are handed out without a copy (%s) and also overwritten in place (%s): a value obtained earlier changes under a later write", strings.Join(shared, "; "), strings.Join(inPlace, "; "))
+		case len(inPlace) > 0:
+			c.OK("C27.stored-immutable", key, posIn, "stored slices are updated in place (%s) but never handed out uncopied", strings.Join(inPlace, "; "))
+		case len(shared) > 0:
+			c.OK("C27.stored-immutable", key, posSh, "stored slices are handed out (%s) but never written in place", strings.Join(shared, "; "))
+		default:
+			c.OK("C27.stored-immutable", key, 0, "stored slices are neither handed out uncopied nor written in place (%d functions examined)", nfun)
+		}
+		c.OK("C27.stored-immutable", provRoot+"memory · functions examined", 0, "%d functions and closures of the memory provider scanned", nfun)
+	}
+
 	c.Rule("C27.iterator-range", "NewIterator selects exactly the keys that carry `prefix` and are ≥ prefix ⌢ start: memory and redis test HasPrefix(key, prefix) and key ≥ prefix⌢start; pebble iterates [prefix⌢start, successor(prefix)) where successor increments the last non-0xFF byte of a copy and truncates after it; the memory iterator sorts its snapshot", 8)
 	lower := "append(append(make([]byte, 0), p1), p2)"
 	{
